@@ -10,7 +10,7 @@ for d in sorted(glob.glob(os.path.join(V, "seeded", "*"))):
     mp = os.path.join(d, "meta.json")
     if not os.path.exists(ev):
         continue
-    txt = open(ev).read()
+    txt = open(ev, errors="replace").read()
     try:
         meta = json.load(open(mp))
     except Exception:
